@@ -634,6 +634,15 @@ class Flow:
                 n0 = len(self.ret_ok)
                 self.ret_ok |= leaves
                 ch |= len(self.ret_ok) != n0
+        if rv['k'] == 'agg' and rv.get('agg') == 'array' and not place['p'] and 1 <= len(rv['ops']) <= 8:
+            r = self.find(place['l'])
+            m = self.agg.setdefault(r, {})
+            for i_, o in enumerate(rv['ops']):
+                s_ = m.setdefault(f'#{i_}', set())
+                n0 = len(s_)
+                s_ |= self.operand_leaves(o)
+                ch |= len(s_) != n0
+                ch |= self._merge_agg(r, f'#{i_}.', self._agg_of_operand(o))
         if rv['k'] == 'agg' and rv.get('agg') in ('adt', 'tuple', 'closure') and not place['p']:
             r = self.find(place['l'])
             names = rv.get('fields') or [str(i) for i in range(len(rv['ops']))]
@@ -716,6 +725,11 @@ class Flow:
             if std and nm in LEN_OF_ARG0 and argl:
                 res = {('len(' + x + ')') if is_path_leaf(x) and not x.startswith('len(') else x
                        for x in argl[0]}
+            elif std and nm == 'new' and 'RangeInclusive' in (f.get('full') or f.get('path') or '') and len(argl) == 2:
+                # lo..=hi: keep the two bounds apart (a `contains` test is two comparisons)
+                res = set(argl[0]) | set(argl[1])
+                if not dest['p']:
+                    ch |= self._merge_agg(self.find(dest['l']), '', {'start': set(argl[0]), 'end': set(argl[1])})
             elif std and nm == 'zip' and len(argl) == 2:
                 # Iterator::zip: items are pairs (item of the receiver, item of the argument); the pair's fields
                 # keep their own sources
@@ -869,7 +883,7 @@ class Flow:
 REL_OF_CALL = {'eq': 'EQ', 'ne': 'NE', 'lt': 'LT', 'le': 'LE', 'gt': 'GT', 'ge': 'GE'}
 REL_OF_BIN = {'Eq': 'EQ', 'Ne': 'NE', 'Lt': 'LT', 'Le': 'LE', 'Gt': 'GT', 'Ge': 'GE'}
 NEG = {'EQ': 'NE', 'NE': 'EQ', 'LT': 'GE', 'GE': 'LT', 'LE': 'GT', 'GT': 'LE',
-       'TRUE': 'FALSE', 'FALSE': 'TRUE', 'SOME': 'NONE', 'NONE': 'SOME', 'IN': 'NOTIN', 'NOTIN': 'IN',
+       'TRUE': 'FALSE', 'FALSE': 'TRUE', 'SOME': 'NONE', 'NONE': 'SOME', 'IN': 'NOTIN', 'NOTIN': 'IN', 'INRANGE': 'NOTIN',
        'EMPTY': 'NONEMPTY', 'NONEMPTY': 'EMPTY'}
 
 
@@ -929,6 +943,11 @@ def _bool_origin(fn, fl, local, defs, neg=False, depth=0):
     if name == 'is_empty' and args:
         return ('NONEMPTY' if neg else 'EMPTY', fl.operand_leaves(args[0]), set())
     if name == 'contains' and len(args) == 2:
+        full = t['f'].get('full') or t['f'].get('path') or ''
+        m = fl._agg_of_operand(args[0]) if 'ops::range::Range' in full else None
+        if m and 'start' in m and 'end' in m and not neg:
+            # lo <= x (and x <= hi, or x < hi for a half-open range): reported as two guards by own_guards
+            return ('INRANGE', fl.operand_leaves(args[1]), (set(m['start']), set(m['end']), 'RangeInclusive' in full))
         return ('NOTIN' if neg else 'IN', fl.operand_leaves(args[1]), fl.operand_leaves(args[0]))
     # a local predicate function: remember which, so that a guard requiring it to be true can be
     # expanded into the comparisons the predicate itself requires
@@ -1220,6 +1239,10 @@ def own_guards(db, fn, fl):
                 expanded = _expand_predicate(db, fn, fl, predcall, bi, t['line'], reject, cov)
             if expanded:
                 out.extend(expanded)
+            elif rel == 'INRANGE':
+                lo, hi, incl = rhs
+                out.append(Guard('LE', lo, lhs, fn.path, bi, t['line'], reject, cov))
+                out.append(Guard('LE' if incl else 'LT', lhs, hi, fn.path, bi, t['line'], reject, cov))
             else:
                 out.append(Guard(rel, lhs, rhs, fn.path, bi, t['line'], reject, cov))
         else:
@@ -1336,6 +1359,27 @@ def effective_guards(db, path, binding=None, depth=0, stack=(), opaque=None, cov
                             actual = [env, set(argl[1]) | {x for x in fl.leaves(t['dest']['l'])}, elems]
                         else:
                             actual = [env] + [elems for _ in range(cfn.arg_count - 1)]
+                        # a literal array as the receiver: apply the closure to each element in turn (the elements of a
+                        # table of (value, min, max) rows must not be merged)
+                        recv_agg = fl._agg_of_operand(args[0]) or {}
+                        rows = sorted({k.split('.')[0] for k in recv_agg if k.startswith('#')})
+                        if rows and t['f'].get('name') == 'try_for_each' and cfn.arg_count == 2:
+                            ea = fl._agg_of_operand(args[ai])
+                            for rk in rows:
+                                item_agg = {k[len(rk) + 1:]: v for k, v in recv_agg.items() if k.startswith(rk + '.')}
+                                act = [env, set(recv_agg.get(rk, set()))]
+                                for g in effective_guards(db, cp, binding, depth + 1, stack + (path,), opaque, 'all', sinks):
+                                    if g.reject != 'panic' and not propagates:
+                                        continue
+                                    ag = [ea, item_agg]
+                                    g2 = Guard(g.rel, fl._subst(g.lhs, act, bi, env_arg=True, argaggs=ag), fl._subst(g.rhs, act, bi, env_arg=True, argaggs=ag),
+                                               g.fn, g.bb, g.line, g.reject, _combine(cov, g.covers))
+                                    g2.kind = getattr(g, 'kind', None)
+                                    g2.root = getattr(g, 'root', None)
+                                    g2.via = [f'{path}@{t["line"]}'] + g.via
+                                    g2.top_bb = bi
+                                    base.append(g2)
+                            continue
                         for g in effective_guards(db, cp, binding, depth + 1, stack + (path,), opaque, 'all', sinks):
                             if g.reject != 'panic' and not propagates:
                                 continue
